@@ -146,6 +146,75 @@ Qed.
 Lemma qscan_len s b r : qscan s = Some (b, r) -> length r < length s.
 Proof. apply (qscan_len_aux (length s)). lia. Qed.
 
+(** ** bare words *)
+Lemma bare_len_skip a q : bare_len (a ++ q) (length a) = length a + bare_len q 0.
+Proof. induction a as [|x a IH]; cbn [app length Tok.bare_len]; [reflexivity|]. now rewrite IH. Qed.
+
+(** a rune that may occur inside a bare word: not a space, not an operator, not the blank *)
+Definition rune_plain (r : N) : bool := negb (is_space r || is_op_r r || (r =? 32)%N).
+
+(** [runes_in rest w]: in the text [w ++ rest], [w] is a sequence of whole
+    runes (as Go's range-over-string decodes them, invalid bytes being one-byte
+    runes), each of them plain *)
+Inductive runes_in (rest : bytes) : bytes -> Prop :=
+| runes_nil : runes_in rest []
+| runes_cons c w r :
+    c <> [] -> decode_rune (c ++ w ++ rest) = (r, length c) -> rune_plain r = true ->
+    runes_in rest w -> runes_in rest (c ++ w).
+
+(** the text after the word is empty or starts with a space or an operator *)
+Definition word_stop (rest : bytes) : Prop :=
+  rest = [] \/ (let r := fst (decode_rune rest) in is_space r || is_op_r r = true).
+
+Lemma bare_len_runes rest w : runes_in rest w -> word_stop rest ->
+  bare_len (w ++ rest) 0 = length w.
+Proof.
+  intros Hr Hs. induction Hr as [|c w r Hc Hd Hp Hr IH].
+  - cbn [app length]. destruct Hs as [->|Hs]; [reflexivity|].
+    destruct rest as [|x rest]; [reflexivity|]. cbn [Tok.bare_len].
+    destruct (decode_rune (x :: rest)) as [r size]. cbn [fst] in Hs. now rewrite Hs.
+  - destruct c as [|x c]; [contradiction|]. rewrite <- app_assoc. cbn [app Tok.bare_len].
+    cbn [app] in Hd. rewrite Hd.
+    unfold rune_plain in Hp. apply negb_true_iff in Hp.
+    apply orb_false_iff in Hp as [Hp _]. rewrite Hp.
+    replace (length (x :: c) - 1) with (length c) by (cbn [length]; lia).
+    rewrite bare_len_skip, IH. cbn [length]. rewrite app_length. lia.
+Qed.
+
+Theorem bare_word_ok allow c w rest e :
+  runes_in rest (c :: w) -> word_stop rest ->
+  is_start_op c = false -> c <> c_dquote -> (allow = true -> c <> c_fslash) ->
+  c :: w <> word_AND -> c :: w <> word_OR ->
+  next allow ((c :: w) ++ rest) e =
+  (mkTok KWord (off_of ((c :: w) ++ rest)) (c :: w), rest, (c :: w) ++ rest, e).
+Proof.
+  intros Hr Hs Hop Hq Hsl Ha Ho.
+  pose proof (bare_len_runes rest (c :: w) Hr Hs) as Hlen.
+  (* the first rune is plain: the white-space loop stops at once *)
+  assert (Hskip : skip_spaces ((c :: w) ++ rest) 0 = (c :: w) ++ rest).
+  { inversion Hr as [|c0 w0 r Hc0 Hd Hp Hr' Heq]. destruct c0 as [|x c0]; [contradiction|].
+    cbn [app] in Heq. injection Heq as -> Hw.
+    cbn [app Tok.skip_spaces]. rewrite Hop.
+    assert (Hd' : decode_rune (c :: w ++ rest) = (r, length (c :: c0))).
+    { rewrite <- Hw, <- app_assoc. exact Hd. }
+    unfold rune_plain in Hp. apply negb_true_iff in Hp.
+    apply orb_false_iff in Hp as [Hp H32]. apply orb_false_iff in Hp as [Hsp _].
+    destruct (beqb_spec c c_space) as [->|_].
+    - exfalso. rewrite decode_rune_ascii in Hd' by (cbv; reflexivity).
+      injection Hd' as <- _. discriminate H32.
+    - rewrite Hw, Hd', Hsp. reflexivity. }
+  unfold Tok.next. rewrite Hskip. cbn [app]. rewrite Hop.
+  replace (allow && Byte.eqb c c_fslash) with false.
+  2:{ destruct allow; [|reflexivity]. cbn [andb]. symmetry. apply beqb_neq. auto. }
+  replace (Byte.eqb c c_dquote) with false by (symmetry; apply beqb_neq; auto).
+  unfold bare_word. change (c :: w ++ rest) with ((c :: w) ++ rest). rewrite Hlen.
+  rewrite firstn_app_exact.
+  rewrite skipn_app, skipn_all, Nat.sub_diag. cbn [skipn app].
+  destruct (beq_spec (c :: w) word_AND) as [E|_]; [contradiction|].
+  destruct (beq_spec (c :: w) word_OR) as [E|_]; [contradiction|].
+  reflexivity.
+Qed.
+
 Definition err_le (e : err) : Prop := match e with Some o => o <= n0 | None => True end.
 
 Lemma set_err_le e q : err_le e -> err_le (set_err e (off_of q)).
